@@ -69,8 +69,10 @@ OrbitReps(klist, div, G) ==
 (* grid/grid.py determineNK (length/length_FFT not given).  Arguments NKdiv, NKFFT, NK: <<>> (None) or a 3-tuple
    (one2three has already replicated scalars).  Result: [kind, div, fft, warn] with
      kind = "ok" | "auto" (ok, the factorisation was chosen by autoNK) | "assert" (a given grid is not symmetric) |
-            "value_error" (nothing usable given)
-     warn = set of warnings: "NK_disregarded", "NKdiv_disregarded", "adjusted" *)
+            "value_error" (nothing usable given)        -- the harness only distinguishes accepted / refused: WHICH exception
+            is raised (and that autoNK without a symmetric candidate fails at all) is incidental
+     warn = set of warnings: "NK_disregarded", "NKdiv_disregarded", "adjusted"   -- model-internal (ExactUnlessAdjusted); the texts
+            and the warning channel are not compared with the code *)
 None == <<>>
 (* numpy.round of a/b for positive integers: half to even *)
 RoundHalfEven(a, b) ==
@@ -80,6 +82,15 @@ RoundDiv(NK, NKFFT) ==
    LET c(i) == LET r == RoundHalfEven(NK[i], NKFFT[i]) IN IF r <= 0 THEN 1 ELSE r
    IN <<c(1), c(2), c(3)>>
 MaskPeriodic(v, periodic) == <<IF periodic[1] THEN v[1] ELSE 1, IF periodic[2] THEN v[2] ELSE 1, IF periodic[3] THEN v[3] ELSE 1>>
+(* What C03 needs of an explicitly requested grid (the rounding rule itself - half to even in the code - is NOT part of it):
+     a pair (NKdiv, NKFFT) is returned as given;  with (NK, NKFFT) the FFT grid is the given one and NKdiv is a nearest
+     integer of NK/NKFFT: exact when NKFFT divides NK, otherwise any d >= 1 with |d*NKFFT - NK| < NKFFT (either neighbour) *)
+RoundOK1(nk, f, d) == d >= 1 /\ (IF nk % f = 0 THEN d * f = nk ELSE (d * f - nk < f /\ nk - d * f < f))
+ExplicitValueOK(periodic, NKdiv, NKFFT, NK, div, fft) ==
+   IF NKdiv # <<>> /\ NKFFT # <<>>
+   THEN div = MaskPeriodic(NKdiv, periodic) /\ fft = MaskPeriodic(NKFFT, periodic)
+   ELSE /\ fft = MaskPeriodic(NKFFT, periodic)
+        /\ \A i \in 1..3 : periodic[i] => RoundOK1(NK[i], NKFFT[i], div[i])
 (* grid.py autoNK(NK, NKFFTrec, pointgroup).  Candidates are enumerated by iterate_vector (x outermost, z innermost);
    numpy.argmin / argmax return the first extremal entry.  The figure of merit NKchange is a float in the code; here it
    is the rational a/b (inverted when > 1).  Equal rationals give equal floats unless one was inverted and the other
